@@ -448,8 +448,8 @@ def check_C12(ctx):
     exec_scenarios(ctx, TRACE_INVS["C12"], KF1_PROGS, "thread-local system inside a batch")
     # async dispatcher: thread-local systems only inside wait(), on the caller, every wait
     out = ctx.fresh("as", "ndjson")
-    st = run_bin(ctx, "exec", ["async", "--seed", ctx.seed * 1000 + 7, "--count", 50 if ctx.quick() else 500, "--calls", 12,
-                               "--ptl", 0.3, "--ppanic", 0.2, "--out", out], timeout=1800)
+    st = run_bin(ctx, "exec", ["async", "--seed", ctx.seed * 1000 + 7, "--count", 80 if ctx.quick() else 600, "--calls", 12,
+                               "--ptl", 0.3, "--ppanic", 0.5, "--out", out], timeout=1800)
     ctx.cov["impl_runs"].append({"kind": "impl->spec async dispatcher sessions with thread-local systems", "programs": st["programs"],
                                  "calls": st["calls"], "events": st["events"]})
     ctx.cov["traces_validated_against_impl"] += st["programs"]
